@@ -89,7 +89,8 @@ func (s *burstyStats[R]) acquirePermits(requestedPermits int, maxWaitTime time.D
 		elapsedPermits := elapsedPeriods * s.periodPermits
 		s.currentPeriod = newCurrentPeriod
 		if s.availablePermits < 0 {
-			s.availablePermits += elapsedPermits
+			// Repay the deficit, but never accumulate more than one period's worth of permits
+			s.availablePermits = min(s.availablePermits+elapsedPermits, s.periodPermits)
 		} else {
 			s.availablePermits = s.periodPermits
 		}
